@@ -264,8 +264,15 @@ UNITS = [{
             (['C08'], '''r matches Ok(c) ==> (c matches VCell::Number(v) && (num_arg(*old(vm), 2) matches Some(x) && (num_arg(*old(vm), 1) matches Some(y)
                 && (is_exact(x) && is_exact(y) ==> is_int(v) && vnum(v) == trem(vnum(x), vnum(y))))))'''),
         ]},
-        # ::modulo is not under contract: Number::modulo needs `!(Float, BigInt)` (closure results are opaque to Verus), which the
-        # procedure cannot establish for (modulo 5.0 <bignum>)
+        # Number::modulo needs `!(Float, BigInt)` (closure results are opaque to Verus), which the procedure cannot establish for
+        # (modulo 5.0 <bignum>): the contract of the procedure is scoped by precondition to a first argument that is not a float
+        '::modulo': {'props': N,
+            'requires': REQ + ['old(vm).stack_spec().sp_spec() > 2 ==> !(num_arg(*old(vm), 2) matches Some(x) && x is Float)'],
+            'body_start': 'proof { if old(vm).stack_spec().sp_spec() > 2 { axiom_cow_cell_ref(&arg(*old(vm), 1)); axiom_cow_cell_ref(&arg(*old(vm), 2)); } }',
+            'ensures': [
+            (['C08'], '''r matches Ok(c) ==> (c matches VCell::Number(v) && (num_arg(*old(vm), 2) matches Some(x) && (num_arg(*old(vm), 1) matches Some(y)
+                && (is_exact(x) && is_exact(y) ==> is_int(v) && vnum(v) == fmod(vnum(x), vnum(y))))))'''),
+        ]},
         '::expt': {'props': N, 'requires': REQ, 'ensures': [
             # (expt x e): an exact answer is exactly x^e for the integer e that was passed
             (['C08'], '''r matches Ok(c) ==> (c matches VCell::Number(v) && (num_arg(*old(vm), 2) matches Some(x) && (num_arg(*old(vm), 1) matches Some(e)
